@@ -704,6 +704,8 @@ func init() {
 		if c.Replay == "" {
 			c01MergeDriver(c, NewRng(c.Seed^0xC01D))
 			c08Extension(c, "C01", NewRng(c.Seed^0xC01E))
+			// smudging into a named file over {no file, same file, same length, shorter, longer}
+			smudgeToFileCampaign(c, NewRng(c.Seed^0xC01F), "C01")
 		}
 	}
 }
